@@ -241,12 +241,22 @@ func (x *Exec) ite(c *Term, a, b Value) Value {
 		return out
 	case *ArrayVal:
 		bv := b.(*ArrayVal)
-		if len(av.E) != len(bv.E) {
-			panic("ite of arrays with different lengths")
+		// backing arrays allocated at the same position may differ in length: elements beyond the
+		// shorter one exist only under the other guard
+		n := len(av.E)
+		if len(bv.E) > n {
+			n = len(bv.E)
 		}
-		out := &ArrayVal{E: make([]Value, len(av.E))}
-		for i := range av.E {
-			out.E[i] = x.ite(c, av.E[i], bv.E[i])
+		out := &ArrayVal{E: make([]Value, n)}
+		for i := 0; i < n; i++ {
+			switch {
+			case i >= len(av.E):
+				out.E[i] = bv.E[i]
+			case i >= len(bv.E):
+				out.E[i] = av.E[i]
+			default:
+				out.E[i] = x.ite(c, av.E[i], bv.E[i])
+			}
 		}
 		return out
 	case *TupleVal:
